@@ -1169,19 +1169,20 @@ def rule_widthtable(repo):
           w.new(w.bir, 'FreeVar', 'K', sc), {'fa': 1, 'fb': 1}, want_expl=True)
 
     # -- slices ----------------------------------------------------------------------------------------
-    n = 6      # not a power of two: the range tests, not the index width, must reject out-of-range bounds
+    SIZES = (1, 2, 6)      # 6 is not a power of two: the range tests, not the index width, must reject out-of-range bounds
     cls_of = {}
-    for lo in range(-1, n + 2):
-        for up in range(-1, n + 3):
-            legal = 0 <= lo < up <= n
-            key = ('legal' if legal else 'lower<0' if lo < 0 else 'upper<=lower' if up <= lo else 'upper>nbits')
-            cls_of.setdefault(key, []).append((lo, up))
+    for n in SIZES:
+        for lo in range(-2, n + 2):
+            for up in range(-2, n + 3):
+                legal = 0 <= lo < up <= n
+                key = ('legal' if legal else 'lower<0' if lo < 0 else 'upper<=lower' if up <= lo else 'upper>nbits')
+                cls_of.setdefault(key, []).append((n, lo, up))
     wm, wq, wl_ = _where(w, 'visit_Slice')
     if sim.get('slice') != 'diff':
         r.bad(repo.mod(BITS), 'Bits.__getitem__', 'slice width', f"Bits slice read no longer has width stop-start ({sim.get('slice')})")
     for key, lst in sorted(cls_of.items()):
         probs = []
-        for lo, up in lst:
+        for n, lo, up in lst:
             ck = w.checker()
             g = ck.attrs['rtlir_getter']
 
@@ -1216,28 +1217,77 @@ def rule_widthtable(repo):
           {'size': 1}, simkey=('slice', 'diff'))
 
     # -- bit index ---------------------------------------------------------------------------------------
-    probs = []
-    for k in range(-1, n + 2):
-        ck = w.checker()
+    def idx_points(size):
+        return sorted({-2, -1, 0, 1, size - 1, size, size + 1})
+
+    def const_index(ck, k):
         g = ck.attrs['rtlir_getter']
         idx = w.new(w.bir, 'Number', S(k, 'k'))
         idx.attrs.update(Type=g.get_rtlir(S(k, 'k')), _value=S(k, 'k'), _is_explicit=False)
-        node = w.new(w.bir, 'Index', w.operand('E', S(n, 'w')), idx)
-        exc = w.run(ck, 'visit_Index', node)
-        if 0 <= k < n:
-            if exc is not None:
-                probs.append(f"s.in{n}[{k}] is {'rejected' if exc == 'PyMTLTypeError' else 'ending with ' + exc}")
-            elif w.nwidth(node).form != {1: 1} or node.attrs.get('_is_explicit') is not True:
-                probs.append(f"s.in{n}[{k}] is typed {w.nwidth(node).v} bits / re-sizable; a bit select is 1 explicit bit")
-        elif exc != 'PyMTLTypeError':
-            probs.append(f"s.in{n}[{k}] (out of range) is {'accepted' if exc is None else 'ending with ' + exc}")
+        return idx
     wm, wq, wl_ = _where(w, 'visit_Index')
     if sim.get('index') != '1':
         r.bad(repo.mod(BITS), 'Bits.__getitem__', 'index width', "Bits index read no longer has width 1")
-    elif probs:
-        r.bad(wm, wq, "visit_Index constant bit select", f"{probs[0]} ({len(probs)} indices wrong)", wl_)
-    else:
-        r.ok(wm, wq, "visit_Index constant bit select")
+    for region in ('in range', 'negative', 'beyond the last element'):
+        probs, cnt = [], 0
+        for n in SIZES:
+            for k in idx_points(n):
+                reg = 'negative' if k < 0 else 'in range' if k < n else 'beyond the last element'
+                if reg != region:
+                    continue
+                cnt += 1
+                ck = w.checker()
+                node = w.new(w.bir, 'Index', w.operand('E', S(n, 'w')), const_index(ck, k))
+                exc = w.run(ck, 'visit_Index', node)
+                if reg == 'in range':
+                    if exc is not None:
+                        probs.append(f"s.in{n}[{k}] is {'rejected' if exc == 'PyMTLTypeError' else 'ending with ' + exc}")
+                    elif w.nwidth(node).form != {1: 1} or node.attrs.get('_is_explicit') is not True:
+                        probs.append(f"s.in{n}[{k}] is typed {w.nwidth(node).v} bits / re-sizable; a bit select is 1 explicit bit")
+                elif exc != 'PyMTLTypeError':
+                    probs.append(f"s.in{n}[{k}] ({reg}) is {'accepted' if exc is None else 'ending with ' + exc}; the simulator raises IndexError")
+        cons = f"visit_Index constant bit select of a vector: index {region}"
+        if probs:
+            r.bad(wm, wq, cons, f"{probs[0]} ({len(probs)} of {cnt} indices wrong)", wl_)
+        else:
+            r.ok(wm, wq, cons)
+    # arrays (lists of ports / constants): the element type, constant index must lie in 0 .. size-1
+    for what in ('port list', 'constant list'):
+        for region in ('in range', 'negative', 'beyond the last element'):
+            probs, cnt = [], 0
+            for n in SIZES:
+                for k in idx_points(n):
+                    reg = 'negative' if k < 0 else 'in range' if k < n else 'beyond the last element'
+                    if reg != region:
+                        continue
+                    cnt += 1
+                    ck = w.checker()
+                    if what == 'port list':
+                        sub = w.new(w.rt, 'Port', 'input', w.vec(S(5, 'we')))
+                        arrT = w.new(w.rt, 'Array', [n], sub)
+                    else:
+                        sub = w.new(w.rt, 'Const', w.vec(S(5, 'we'), False), None)
+                        arrT = w.new(w.rt, 'Array', [n], sub, [S(10 + i, f'e{i}') for i in range(n)])
+                    arr = w.new(w.bir, 'Attribute', Opaque('base'), 'tap')
+                    arr.attrs.update(Type=arrT, _is_explicit=True)
+                    node = w.new(w.bir, 'Index', arr, const_index(ck, k))
+                    exc = w.run(ck, 'visit_Index', node)
+                    ex = f"s.tap[{k}] on a {n}-entry {what}"
+                    if reg == 'in range':
+                        if exc is not None:
+                            probs.append(f"{ex} is {'rejected' if exc == 'PyMTLTypeError' else 'ending with ' + exc}")
+                        elif not isinstance(node.attrs.get('Type'), AInst) or w.nwidth(node).form != {'we': 1}:
+                            probs.append(f"{ex} is not typed like the list element")
+                        elif what == 'constant list' and form_of(node.attrs.get('_value', 0)) != {f'e{k}': 1}:
+                            probs.append(f"{ex} does not fold to element {k} of the list")
+                    elif exc != 'PyMTLTypeError':
+                        probs.append(f"{ex} ({reg}) is {'accepted' if exc is None else 'ending with ' + exc}; python wraps a negative index / "
+                                     f"raises IndexError, hardware reads an out-of-range element")
+            cons = f"visit_Index constant index into a {what}: index {region}"
+            if probs:
+                r.bad(wm, wq, cons, f"{probs[0]} ({len(probs)} of {cnt} indices wrong)", wl_)
+            else:
+                r.ok(wm, wq, cons)
     check('visit_Index', "visit_Index variable bit select with an index of the index width",
           w.new(w.bir, 'Index', w.operand('E', S(8, 'w')), w.operand('E', S(3, 'wi'))), {1: 1})
 
@@ -1313,7 +1363,7 @@ def rule_widthtable(repo):
     if all(p['exc'] is not None or pw.nwidth(p['node']).form == {1: 1} for p in ppts):
         raise AnalysisError("R-C10-widthtable: the embedded comparison typed like its operand is not flagged")
     r.evaluations = w.evals
-    r.require_floor(65)
+    r.require_floor(73)
     return r
 
 
@@ -1516,6 +1566,12 @@ MUTANTS = [
              new="  def _get_signal_dtype( self, obj ):\n    Type = obj._dsl.Type\n    if is_bitstruct_class( Type ):\n      key = ( Type.__name__, tuple( Type.__bitstruct_fields__ ) )\n"
                  "      if key not in self._struct_dtype_cache:\n        self._struct_dtype_cache[ key ] = get_rtlir_dtype( obj )\n      return self._struct_dtype_cache[ key ]\n"
                  "    return get_rtlir_dtype( obj )\n\n  def _handle_Wire( self, w_id, obj ):\n    return Wire( self._get_signal_dtype( obj ) )\n", count=1)]),
+    # constant index / slice bounds: negative constants are never accepted
+    _m('array-index-lower-bound-lost', TC1, "      if idx is not None and not (0 <= idx < node.value.Type.get_dim_sizes()[0]):", "      if idx is not None and idx >= node.value.Type.get_dim_sizes()[0]:", 'R-C10-widthtable'),
+    _m('array-index-upper-bound-inclusive', TC1, "      if idx is not None and not (0 <= idx < node.value.Type.get_dim_sizes()[0]):", "      if idx is not None and not (0 <= idx <= node.value.Type.get_dim_sizes()[0]):", 'R-C10-widthtable'),
+    _m('bit-index-lower-bound-lost', TC1, "        if idx is not None and not(0 <= idx < dtype.get_length()):", "        if idx is not None and idx >= dtype.get_length():", 'R-C10-widthtable'),
+    _m('slice-lower-bound-lost', TC1, "      if not ( 0 <= lower_val < upper_val <= signal_nbits ):", "      if not ( lower_val < upper_val <= signal_nbits ):", 'R-C10-widthtable'),
+    _m('array-const-element-off-by-one', TC1, "          node._value = int( obj[ int( idx ) ] )", "          node._value = int( obj[ int( idx ) - 1 ] )", 'R-C10-widthtable'),
     # literal width
     _m('float-log-reintroduced-L1', TC1, "      return value.bit_length()\n", "      return math.ceil(math.log2(value+1))\n", 'R-intlog'),
     _m('float-log-reintroduced-rdt', RDT, "    return value.bit_length()\n", "    return ceil(log2(value+1))\n", 'R-C10-litwidth'),
